@@ -601,16 +601,17 @@ loopbreak:
 	L.Push(LString(name))
 	L.Call(1, 1)
 	ret := L.reg.Pop()
-	modv := L.GetField(loaded, name)
-	if ret != LNil && modv == loopdetection {
+	if ret != LNil {
+		// a non-nil value returned by the loader always becomes package.loaded[name]
 		L.SetField(loaded, name, ret)
-		L.Push(ret)
-	} else if modv == loopdetection {
-		L.SetField(loaded, name, LTrue)
-		L.Push(LTrue)
-	} else {
-		L.Push(modv)
 	}
+	modv := L.GetField(loaded, name)
+	if modv == loopdetection {
+		// the module neither returned nor stored a value
+		modv = LTrue
+		L.SetField(loaded, name, modv)
+	}
+	L.Push(modv)
 	return 1
 }
 
